@@ -55,8 +55,20 @@ func runHarness(bin string, gmp int, wall time.Duration, args ...string) procOut
 	ctx, cancel := context.WithTimeout(context.Background(), wall)
 	defer cancel()
 	cmd := exec.CommandContext(ctx, bin, full...)
+	initProcs := 1
+	for i := 0; i+1 < len(args); i++ {
+		if args[i] == "-proc" {
+			if p, err := strconv.Atoi(args[i+1]); err == nil && p >= 0 {
+				// what runtime.GOMAXPROCS(0) / NumCPU() answer OUTSIDE of runs (package
+				// initialisation of the library): a function of the process number, so that
+				// replays see the same value
+				initProcs = []int{1, 2, 4, 8, 16}[p%5]
+			}
+		}
+	}
 	cmd.Env = append(os.Environ(),
 		fmt.Sprintf("GOMAXPROCS=%d", gmp),
+		fmt.Sprintf("VERIF_INIT_PROCS=%d", initProcs),
 		"GORACE=log_path="+racef+" halt_on_error=0 exitcode=0 atexit_sleep_ms=0 history_size=2",
 		"VERIF_RACELOG="+racef,
 		"GOTRACEBACK=single",
@@ -151,7 +163,7 @@ func replayWith(b builds, rec *proto.Record, tag string, extra ...string) (proto
 	path := filepath.Join(p, fmt.Sprintf("rec.%d.%s.json", n, tag))
 	writeJSON(path, rec)
 	defer os.Remove(path)
-	args := append([]string{"replay", "-rec", path, "-build", rec.Build}, extra...)
+	args := append([]string{"replay", "-rec", path, "-build", rec.Build, "-proc", strconv.Itoa(rec.Proc)}, extra...)
 	gmp := 1
 	if rec.Run.Policy.Kind == "free" || degradedMode {
 		args = append(args, "-free")
